@@ -1,6 +1,7 @@
 #![allow(dead_code)]
 mod c03;
 mod c04;
+mod c05;
 mod c06;
 mod c07;
 mod c08;
@@ -10,6 +11,8 @@ mod c11;
 mod c12;
 mod c13;
 mod c16;
+mod c17;
+mod printer;
 mod circ;
 mod corpus;
 mod evalrec;
@@ -48,6 +51,10 @@ fn main() {
         "frontend-batch" => c07::cmd_batch(rest),
         "frontend-run" => c07::cmd_run(rest),
         "tokens-debug" => c07::cmd_tokens_debug(rest),
+        "shape5-files" => c05::cmd_files(rest),
+        "shape5-record" => c05::cmd_record(rest),
+        "types-mutants" => c17::cmd_mutants(rest),
+        "printer-debug" => c17::cmd_printer_debug(rest),
         "c16-replay" => c16::cmd_replay(rest),
         "c16-products" => c16::cmd_products(rest),
         "compile-one" => corpus::cmd_compile_one(rest),
